@@ -256,3 +256,25 @@ def page_of_the_context(prop="C11", replay=None):
             r2.replay = replay()
     out.append(r2)
     return out
+
+
+def no_memo_obligation(prop="C11", replay=None):
+    """what a `[[name]]` reference means depends on where it stands (the documented entity's own contents first, then its parent's, then the project): FordLinkProcessor.handleMatch
+    computes the link for every match - `return (self.convert_link(m), m.start(0), m.end(0))` - and keeps no table of results from one text to the next."""
+    import ast
+    from harness import loader
+    from harness.core import OR, PROVED, REFUTED, UNKNOWN
+    oid = f"{prop}.S.FordLinkProcessor.handleMatch.every_reference_is_looked_up_in_its_own_context"
+    fn = loader.find_def("ford._markdown", "FordLinkProcessor.handleMatch")
+    rets = [r for r in ast.walk(fn) if isinstance(r, ast.Return)]
+    body = [st for st in fn.body if not (isinstance(st, ast.Expr) and isinstance(st.value, ast.Constant))]
+    ok = len(rets) == 1 and len(body) == 1 and isinstance(rets[0].value, ast.Tuple) and ast.unparse(rets[0].value.elts[0]) == "self.convert_link(m)"
+    r = OR(id=oid, status=PROVED if ok else UNKNOWN, kind="S", role="post", backend="ast", target="ford._markdown.FordLinkProcessor.handleMatch",
+           desc="handleMatch is the single statement `return (self.convert_link(m), m.start(0), m.end(0))`: no result is carried over from another text")
+    if not ok:
+        hit = replay() if replay else None
+        r.detail = "handleMatch does more than convert the match at hand"
+        if hit:
+            r.status, r.replay = REFUTED, hit
+            r.detail += ": a reference is answered with the entity another context selected for the same spelling"
+    return [r]
